@@ -239,6 +239,8 @@ class Emit:
                 return "(%s (NatIdx.ofNat %s) 0)" % (self.atom(b), self.atom(x[2]))
             if x[2][0] == "range" and x[2][2] is None:       # `&v[a..]`
                 return "(List.drop %s %s)" % (self.atom(x[2][1]), self.atom(b))
+            if self.cfg.get("vecget"):
+                return "(%s %s %s)" % (self.cfg["vecget"], self.atom(b), self.atom(x[2]))
             if self.cfg.get("imperative"):
                 return "%s[%s]!" % (self.atom(b), self.e(x[2]))
             raise Unsupported("indexing")
@@ -406,8 +408,8 @@ class Emit:
                 self.tup([V] + w), st, c, self.imp(body, self.tup(["(__acc ++ [%s])" % c] + w)), self.tup(["[]"] + w), V, tailstr())
         if x[0] == "assign" and x[1][0] == "index" and self.lhs_name(x[1][1]) is not None:      # `v[i] = e`
             v = self.lhs_name(x[1][1])
-            return "let %s := (List.set %s %s %s);\n    %s" % (v, v, self.atom(x[1][2]), self.atom(x[2]), tailstr())
-        if x[0] == "mcall" and self.lhs_name(x[1]) is not None and x[2] in ("push", "push_back") and len(x[3]) == 1:
+            return "let %s := (%s %s %s %s);\n    %s" % (v, self.cfg.get("vecset", "List.set"), v, self.atom(x[1][2]), self.atom(x[2]), tailstr())
+        if x[0] == "mcall" and self.lhs_name(x[1]) is not None and x[2] in ("push", "push_back") and len(x[3]) == 1 and x[2] not in self.cfg.get("mutmethods", {}):
             v = self.lhs_name(x[1])
             return "let %s := (%s ++ [%s]);\n    %s" % (v, v, self.e(x[3][0]), tailstr())
         if x[0] == "mcall" and self.lhs_name(x[1]) is not None and x[2] == "pop" and not x[3]:
@@ -535,6 +537,8 @@ class Emit:
             if isinstance(y, tuple):
                 if y and y[0] == "mcall" and y[2] in self.cfg.get("mutmethods", {}) and self.lhs_name(y[1]) is not None:
                     out.add(self.lhs_name(y[1]))
+                if y and y[0] == "assign" and y[1][0] == "index" and self.lhs_name(y[1][1]) is not None:
+                    out.add(self.lhs_name(y[1][1]))
                 if y and y[0] == "let":
                     bound.update(self.pvars(y[1]))
                 for z in y:
@@ -637,6 +641,12 @@ class Emit:
             pre = ("let (%s, __flt) := (List.foldl (fun ((%s, __acc) : _ × List _) __it => (match __it with\n    | %s => (let (__keep, %s) := (%s);\n    (%s, if __keep then __acc ++ [__it] else __acc)))) (%s, []) %s);\n    "
                    % (cv, cv, self.pat(clo[1][0]), cv, body, cv, cv, self.atom(recv)))
             return pre + self.cps([("let", s[1], rebuild(("path", ["__flt"]))) + tuple(s[3:])] + rest, tail, K, borrows, optb)
+        if s[0] == "let" and s[2][0] == "mcall" and s[2][2] == "unwrap_or_else" and len(s[2][3]) == 1 and s[2][3][0][0] == "closure" \
+                and not s[2][3][0][1] and self.mutated_captures(s[2][3][0]):
+            clo = s[2][3][0]
+            body = clo[2] if clo[2][0] == "block" else ("block", [], clo[2])
+            m = ("match", s[2][1], [(("pctor", ["Some"], [("pvar", "__u")]), ("path", ["__u"])), (("pctor", ["None"], []), body)])
+            return self.cps([("let", s[1], m) + tuple(s[3:])] + rest, tail, K, borrows, optb)
         if s[0] == "let" and s[2][0] == "try" and self.cfg.get("resultfn"):
             # `let pat = e?;`: an `Err` ends the function with that error
             inner = s[2][1]
@@ -670,7 +680,7 @@ class Emit:
                 for mname in muts:
                     muts2.append(args[int(mname[1:])] if mname.startswith("@") else mname)
                 return "%slet (%s) := (%s);\n    %s%s%s" % (pre, ", ".join([ident(pat[1])] + muts2), tmpl.format(*args), post, self.wb(muts2, borrows), cont())
-            if e[0] in ("if", "iflet", "match") and (self.uses_borrow(e, optb) or self.assigned([("expr", e)])):
+            if e[0] in ("if", "iflet", "match") and (self.uses_borrow(e, optb) or self.assigned([("expr", e)]) or self.mutated_captures(("closure", [], e))):
                 K2 = lambda v: "let %s := %s;\n    %s" % (self.pat(pat), v, cont())
                 def go(blk, b2):
                     if blk is None:
@@ -698,7 +708,8 @@ class Emit:
                                                                                 or any(t[0] == "let" and self.getmut(t[2]) for t in self.as_stmts(x[3]))):
             st = "(" + ", ".join(self.cfg["state"]) + ")" if len(self.cfg["state"]) > 1 else self.cfg["state"][0]
             body = self.cps(self.as_stmts(x[3]), None, lambda v: st, borrows, optb)
-            return "let %s := (List.foldl (fun %s %s => (%s)) %s %s);\n    %s" % (st, st, self.pat(x[1]), body, st, self.atom(x[2]), cont())
+            it = "(List.range' %s (%s - %s))" % (self.e(x[2][1]), self.e(x[2][2]), self.e(x[2][1])) if x[2][0] == "range" else self.atom(x[2])
+            return "let %s := (List.foldl (fun %s %s => (%s)) %s %s);\n    %s" % (st, st, self.pat(x[1]), body, st, it, cont())
         if x[0] == "for" and self.has_return(x):
             # a loop that can return: a fold over `Sum (returned value) (mutable places)`; an iteration that follows a return does nothing
             st = "(" + ", ".join(self.cfg["state"]) + ")"
@@ -1164,6 +1175,20 @@ STORE_ADD = [
          method=dict(STORE_MAP_COMMON["method"], new_track="{1}", observation="({0}, {1})", build="buildFn {0}"),
          effcalls={"add_observation": ("addObsFn {0} {1} {2} {3} {4}", ["@0"])}),
 ]
+
+SORTVOTE = [
+    dict(group="SortVoting", name="sort_voting_winners", file="trackers/sort/voting.rs", impl=r"impl Voting<Universal2DBox> for SortVoting \{", fn="winners",
+         cps=True, imperative=True, state=["candidates_index", "tracks_index", "tracks_r_index", "cost_matrix"],
+         sig="(quant : Rat → Int) (mult : Rat) (km : (Nat → Nat → Int) → Int × List Nat) (threshold : Int) (candidate_num track_num : Nat) (distances : List SD) : List (Nat × List Nat)",
+         ret="{0}", fieldpath={"self.track_num": "track_num", "self.candidate_num": "candidate_num", "self.threshold": "threshold"},
+         structpat={"ObservationMetricOk": ["from", "to", "attribute_metric"]},
+         mapfns=("matGet", "matGetD", "matSet"), vecset="vecSet", vecget="vecGet",
+         cast={"i64": "quant {0}"}, path={"F32_U64_MULT": "mult"},
+         method={"get": "mapGet {0} {1}", "copied": "{0}", "unwrap_or": "Option.getD {0} {1}", "len": "vecLen {0}", "into_iter": "{0}", "enumerate": "enumerateL {0}",
+                 "flat_map": "List.filterMap {1} {0}", "collect": "{0}"},
+         call={"HashMap::default": "[]", "Vec::default": "vecEmpty", "Matrix::new": "(fun (_ _ : Nat) => (0 : Int))", "kuhn_munkres": "km {0}", "Some": "some {0}"},
+         mutmethods={"resize": "vecResize {0} {1} {2}", "insert": "mapSet {0} {1} {2}", "push": "vecPush {0} {1}"}),
+]
 # decision kernels over Nat / Rat (no field structure needed)
 GAL_METHOD = {"feature": "featureOf {0}", "attr": "{0}", "as_ref": "{0}", "unwrap": "{0}", "visual_quality": "quality {0}",
                  "partial_cmp": "cmpQ {0} {1}", "len": "List.length {0}", "iter": "{0}", "filter": "List.filter {1} {0}", "count": "List.length {0}"}
@@ -1270,7 +1295,7 @@ LOGIC = [
 def gen(repo, cfgs, header, footer):
     out, unread = [header], []
     for c in cfgs:
-        if c in LOGIC or c in TRACK or c in VOTING or c in TRACK_DIST or c in STORE or c in RECORDS or c in AUTOWASTE or c in VISVOTE or c in STORE_MAP or c in STORE_ADD:
+        if c in LOGIC or c in TRACK or c in VOTING or c in TRACK_DIST or c in STORE or c in RECORDS or c in AUTOWASTE or c in VISVOTE or c in STORE_MAP or c in STORE_ADD or c in SORTVOTE:
             c = dict(c, scalar=c.get("scalar", "Rat"))
         path = os.path.join(repo, "src", c["file"])
         try:
@@ -1441,6 +1466,24 @@ def shPut {β : Type} : List (Nat × β) → Nat → β → List (Nat × β)
   | [], id, v => [(id, v)]
   | p :: rest, id, v => if p.1 == id then (id, v) :: rest else p :: shPut rest id v
 """
+PRELUDE_SORTVOTE = """/-- `ObservationMetricOk<Universal2DBox>` as `SortVoting` reads it: candidate, track, positional weight -/
+structure SD where
+  frm : Nat
+  to : Nat
+  attr : Option Rat
+/-- `Vec<u64>` as (length, contents): `resize` from empty, `v[i] = x`, `push`, `len`, `v[i]` -/
+abbrev VecN := Nat × (Nat → Nat)
+def vecEmpty : VecN := (0, fun _ => 0)
+def vecResize (v : VecN) (n x : Nat) : VecN := (n, fun i => if i < v.1 then v.2 i else x)
+def vecSet (v : VecN) (i x : Nat) : VecN := (v.1, fun j => if j = i then x else v.2 j)
+def vecPush (v : VecN) (x : Nat) : VecN := (v.1 + 1, fun j => if j = v.1 then x else v.2 j)
+def vecLen (v : VecN) : Nat := v.1
+def vecGet (v : VecN) (i : Nat) : Nat := v.2 i
+/-- `pathfinding::matrix::Matrix<i64>` as a function of (row, column); `get_mut((r, c))` borrows one entry -/
+def matGet (m : Nat → Nat → Int) (k : Nat × Nat) : Option Int := some (m k.1 k.2)
+def matGetD (m : Nat → Nat → Int) (k : Nat × Nat) : Int := m k.1 k.2
+def matSet (m : Nat → Nat → Int) (k : Nat × Nat) (v : Int) : Nat → Nat → Int := fun i j => if i = k.1 ∧ j = k.2 then v else m i j
+"""
 PRELUDE_SWAP = """/-- `slice::swap(i, j)` (indices in range: the code pushes an element first) -/
 def listSwap {α : Type} (l : List α) (i j : Nat) : List α :=
   match l[i]?, l[j]? with
@@ -1499,6 +1542,7 @@ def main():
     jobs.append(("LAutoWaste.lean", AUTOWASTE, HEADER_L, "SimVerif.Gen.L"))
     jobs.append(("LVisVoting.lean", VISVOTE, "import SimVerif.Gen.LBase\nimport SimVerif.Model.Voting\n" + HEADER_L + PRELUDE_VISVOTE, "SimVerif.Gen.L"))
     jobs.append(("LStoreMap.lean", STORE_MAP + STORE_ADD, "import SimVerif.Model.Track\n" + HEADER_L + PRELUDE_STOREMAP, "SimVerif.Gen.L"))
+    jobs.append(("LSortVoting.lean", SORTVOTE, "import SimVerif.Gen.LBase\n" + HEADER_L + PRELUDE_SORTVOTE, "SimVerif.Gen.L"))
     jobs.append(("LTrackDist.lean", TRACK_DIST, "import SimVerif.Gen.LTrack\nimport SimVerif.Model.Track\n" + HEADER_L + PRELUDE_TRACKDIST, "SimVerif.Gen.L"))
     jobs.append(("LConstr.lean", [c for c in LOGIC if c["group"] == "Constr"], HEADER_L + PRELUDE_DEDUP, "SimVerif.Gen.L"))
     jobs.append(("LBase.lean", [], HEADER_L + PRELUDE_BASE + PRELUDE_MAP, "SimVerif.Gen.L"))
